@@ -1,6 +1,6 @@
 /-
-C07 (part 3) — `resolve_var` terminates on acyclic custom-property environments, which turns
-"var() = substitution whenever resolve_var returns" into a total statement there.
+C07 (part 3) — `resolve_var` always terminates (cycle guard: finitely many custom properties), and on acyclic
+custom properties, where textual substitution has a meaning, it returns that substitution: a total statement.
 -/
 import WpModel.Model.VarSubst
 import WpModel.Lemmas.C07Var
@@ -9,109 +9,7 @@ import WpModel.Props.C07
 namespace Wp.C07
 open Wp Wp.Decl Wp.Var
 
-/-! ## 19. Termination on acyclic environments -/
-
-/-- Custom-property names (underscore form, as `computed[...]` is indexed) of the identifiers that are direct
-arguments of a function. -/
-def identNames : List Tk → List String
-  | [] => []
-  | .ident v :: rest => dashToUnderscore v :: identNames rest
-  | _ :: rest => identNames rest
-
-mutual
-/-- Every custom property a token may refer to: the identifier arguments of every function called `var`, at
-any depth (an over-approximation of what `resolve_var` looks up). -/
-def refs : Tk → List String
-  | .fn _ l args => (if l == "var" then identNames args else []) ++ refsList args
-  | _ => []
-def refsList : List Tk → List String
-  | [] => []
-  | t :: rest => refs t ++ refsList rest
-end
-
-/-- The reference graph of the custom properties is acyclic: a rank decreases along every reference. -/
-def Acyclic (env : Env) (rk : String → Nat) : Prop :=
-  ∀ n, ∀ m ∈ refsList (env n), rk m < rk n
-
-private theorem refsList_mem : ∀ (l : List Tk) (a : Tk), a ∈ l → ∀ m ∈ refs a, m ∈ refsList l
-  | [], a, h, _, _ => by cases h
-  | t :: rest, a, h, m, hm => by
-    simp only [List.mem_cons] at h
-    simp only [refsList, List.mem_append]
-    rcases h with rfl | h
-    · exact Or.inl hm
-    · exact Or.inr (refsList_mem rest a h m hm)
-
-private theorem refsList_of_mem (l : List Tk) (m : String) (h : m ∈ refsList l) : ∃ a ∈ l, m ∈ refs a := by
-  induction l with
-  | nil => simp [refsList] at h
-  | cons t rest ih =>
-    simp only [refsList, List.mem_append] at h
-    rcases h with h | h
-    · exact ⟨t, by simp, h⟩
-    · obtain ⟨a, ha, hm⟩ := ih h
-      exact ⟨a, by simp [ha], hm⟩
-
-private theorem identNames_mem : ∀ (l : List Tk) (v : String), Tk.ident v ∈ l → dashToUnderscore v ∈ identNames l
-  | [], v, h => by cases h
-  | t :: rest, v, h => by
-    simp only [List.mem_cons] at h
-    rcases h with rfl | h
-    · simp [identNames]
-    · have := identNames_mem rest v h
-      cases t <;> simp [identNames, this]
-
-/-- What `parse_function` keeps are arguments of the function. -/
-private theorem parseArgs_mem : ∀ (a : List Tk) (b : Bool) (out : List Tk), parseArgs a b = some out →
-    ∀ x ∈ out, x ∈ a
-  | [], b, out, h, x, hx => by
-    cases b <;> simp [parseArgs] at h
-    subst h; cases hx
-  | .ws :: rest, b, out, h, x, hx => by
-    simp only [parseArgs] at h
-    simp [parseArgs_mem rest b out h x hx]
-  | .comma :: rest, b, out, h, x, hx => by
-    simp only [parseArgs] at h
-    cases b with
-    | true => simp at h
-    | false =>
-      simp only [Bool.false_eq_true, if_false] at h
-      simp [parseArgs_mem rest true out h x hx]
-  | .ident v :: rest, b, out, h, x, hx => by
-    simp only [parseArgs, parses, if_true] at h
-    cases hr : parseArgs rest false with
-    | none => simp [hr] at h
-    | some d =>
-      simp only [hr, Option.map_some, Option.some.injEq] at h
-      subst h
-      simp only [List.mem_cons] at hx ⊢
-      rcases hx with rfl | hx
-      · exact Or.inl rfl
-      · exact Or.inr (parseArgs_mem rest false d hr x hx)
-  | .leaf v :: rest, b, out, h, x, hx => by
-    simp only [parseArgs, parses, if_true] at h
-    cases hr : parseArgs rest false with
-    | none => simp [hr] at h
-    | some d =>
-      simp only [hr, Option.map_some, Option.some.injEq] at h
-      subst h
-      simp only [List.mem_cons] at hx ⊢
-      rcases hx with rfl | hx
-      · exact Or.inl rfl
-      · exact Or.inr (parseArgs_mem rest false d hr x hx)
-  | .fn n l args :: rest, b, out, h, x, hx => by
-    simp only [parseArgs] at h
-    split at h
-    · cases hr : parseArgs rest false with
-      | none => simp [hr] at h
-      | some d =>
-        simp only [hr, Option.map_some, Option.some.injEq] at h
-        subst h
-        simp only [List.mem_cons] at hx ⊢
-        rcases hx with rfl | hx
-        · exact Or.inl rfl
-        · exact Or.inr (parseArgs_mem rest false d hr x hx)
-    · cases h
+/-! ## 19. Termination: always on finite custom-property sets (cycle guard), and on acyclic ones -/
 
 /-- "Enough fuel" passes from the elements to the list. -/
 private theorem fuel_for_list (P : Nat → Tk → Prop) :
@@ -147,45 +45,228 @@ private theorem valueStep_of_ok (rv : Tk → R (Option (List Tk))) (a : Tk) (h :
   cases r <;> simp [valueStep, hr, bind, Except.bind, pure, Except.pure]
 
 /-- One unfolding of `resolve_var` on a function that is not `var()` … -/
-private theorem resolveVar_fn_eq (env : Env) (fuel : Nat) (name lname : String) (args : List Tk)
-    (parts : List (List Tk)) (hc : checkVar (.fn name lname args) = true) (hl : (lname != "var") = true)
-    (hm : args.mapM (argStep (resolveVar env fuel)) = .ok parts)
-    (h2 : resolveVar env fuel (.fn name lname parts.flatten) = .ok none) :
-    resolveVar env (fuel + 1) (.fn name lname args) = .ok (some [Tk.fn name lname parts.flatten]) := by
+private theorem resolveVar_fn_eq (env : Env) (seen : List String) (fuel : Nat) (name lname : String)
+    (args : List Tk) (parts : List (List Tk)) (hc : checkVar (.fn name lname args) = true)
+    (hl : (lname != "var") = true)
+    (hm : args.mapM (argStep (resolveVar env seen fuel)) = .ok parts)
+    (h2 : resolveVar env seen fuel (.fn name lname parts.flatten) = .ok none) :
+    resolveVar env seen (fuel + 1) (.fn name lname args) = .ok (some [Tk.fn name lname parts.flatten]) := by
   simp only [resolveVar, hc, Bool.not_true, Bool.false_eq_true, if_false, hl, if_true, hm, h2, bind,
     Except.bind]
   rfl
 
-/-- … and on a `var()`. -/
-private theorem resolveVar_var_eq (env : Env) (fuel : Nat) (name lname : String) (args dflt : List Tk)
-    (v : String) (parts : List (List Tk)) (hc : checkVar (.fn name lname args) = true)
+/-- … and on a `var()`: the values are resolved with the custom property added to `seen`. -/
+theorem resolveVar_var_eq (env : Env) (seen : List String) (fuel : Nat) (name lname : String)
+    (args dflt : List Tk) (v : String) (parts : List (List Tk)) (hc : checkVar (.fn name lname args) = true)
     (hl : (lname != "var") = false) (hp : parseArgs args false = some (.ident v :: dflt))
-    (hm : (if (env (dashToUnderscore v)).isEmpty then dflt else env (dashToUnderscore v)).mapM
-      (valueStep (resolveVar env fuel)) = .ok parts) :
-    resolveVar env (fuel + 1) (.fn name lname args) = .ok (some parts.flatten) := by
+    (hm : (varValues env seen (dashToUnderscore v) dflt).mapM
+      (valueStep (resolveVar env (seen ++ [dashToUnderscore v]) fuel)) = .ok parts) :
+    resolveVar env seen (fuel + 1) (.fn name lname args) = .ok (some parts.flatten) := by
   simp only [resolveVar, hc, Bool.not_true, Bool.false_eq_true, if_false, hl, hp, hm, bind, Except.bind]
   rfl
 
-/-- `S env t`: from some fuel on, `resolve_var` returns on `t`. -/
-private def Returns (env : Env) (t : Tk) : Prop := ∃ f0, ∀ f, f0 ≤ f → ∃ r, resolveVar env f t = .ok r
+/-- From some fuel on, `resolve_var` returns on `t` (called with `seen`). -/
+def Returns (env : Env) (seen : List String) (t : Tk) : Prop :=
+  ∃ f0, ∀ f, f0 ≤ f → ∃ r, resolveVar env seen f t = .ok r
 
-private theorem returns_core (env : Env) (rk : String → Nat) (hacy : Acyclic env rk) :
-    ∀ (B : Nat) (n : Nat) (t : Tk), sizeOf t ≤ n → (∀ m ∈ refs t, rk m < B) → Returns env t := by
+private theorem returns_no_var (env : Env) (seen : List String) (t : Tk) (hc : checkVar t = false) :
+    Returns env seen t := by
+  refine ⟨1, fun f hf => ⟨none, ?_⟩⟩
+  obtain ⟨g, rfl⟩ : ∃ g, f = g + 1 := ⟨f - 1, by omega⟩
+  simp [resolveVar, hc]; rfl
+
+/-- A function that is not `var()` returns as soon as its arguments do: the rebuilt function has no `var()`. -/
+private theorem returns_fn (env : Env) (seen : List String) (name lname : String) (args : List Tk)
+    (hc : checkVar (.fn name lname args) = true) (hl : (lname != "var") = true)
+    (hargs : ∀ a ∈ args, Returns env seen a) : Returns env seen (.fn name lname args) := by
+  obtain ⟨f1, h1⟩ := fuel_for_list (fun f a => ∃ r, resolveVar env seen f a = .ok r) args hargs
+  refine ⟨max f1 1 + 1, fun f hf => ?_⟩
+  obtain ⟨g, rfl⟩ : ∃ g, f = g + 1 := ⟨f - 1, by omega⟩
+  have hg1 : f1 ≤ g := by have := Nat.le_max_left f1 1; omega
+  have hg2 : 1 ≤ g := by have := Nat.le_max_right f1 1; omega
+  obtain ⟨parts, hm⟩ := mapM_all_ok (argStep (resolveVar env seen g)) args
+    (fun a ha => argStep_of_ok _ a (h1 g hg1 a ha))
+  have hc' := rebuilt_no_var env seen g name lname args parts hl hm
+  obtain ⟨g', rfl⟩ : ∃ g', g = g' + 1 := ⟨g - 1, by omega⟩
+  have h2 : resolveVar env seen (g' + 1) (Tk.fn name lname parts.flatten) = .ok none := by
+    simp [resolveVar, hc']; rfl
+  exact ⟨some [Tk.fn name lname parts.flatten], resolveVar_fn_eq env seen _ name lname args parts hc hl hm h2⟩
+
+/-- A `var()` returns as soon as the values it stands for do. -/
+private theorem returns_var (env : Env) (seen : List String) (name lname : String) (args dflt : List Tk)
+    (v : String) (hc : checkVar (.fn name lname args) = true) (hl : (lname != "var") = false)
+    (hp : parseArgs args false = some (.ident v :: dflt))
+    (hvals : ∀ x ∈ varValues env seen (dashToUnderscore v) dflt,
+      Returns env (seen ++ [dashToUnderscore v]) x) : Returns env seen (.fn name lname args) := by
+  obtain ⟨f1, h1⟩ := fuel_for_list
+    (fun f a => ∃ r, resolveVar env (seen ++ [dashToUnderscore v]) f a = .ok r) _ hvals
+  refine ⟨f1 + 1, fun f hf => ?_⟩
+  obtain ⟨g, rfl⟩ : ∃ g, f = g + 1 := ⟨f - 1, by omega⟩
+  obtain ⟨parts, hm⟩ := mapM_all_ok (valueStep (resolveVar env (seen ++ [dashToUnderscore v]) g)) _
+    (fun a ha => valueStep_of_ok _ a (h1 g (by omega) a ha))
+  exact ⟨some parts.flatten, resolveVar_var_eq env seen g name lname args dflt v parts hc hl hp hm⟩
+
+/-! ### Always: the cycle guard -/
+
+/-- How many of the (finitely many) non-empty custom properties are not under substitution yet. -/
+def pendingNames (names seen : List String) : Nat := (names.filter fun n => !seen.contains n).length
+
+private theorem contains_snoc (seen : List String) (k n : String) :
+    (seen ++ [k]).contains n = (seen.contains n || n == k) := by
+  induction seen with
+  | nil => simp only [List.nil_append, List.contains_cons, List.contains_nil, Bool.or_false, Bool.false_or]
+  | cons a rest ih => simp only [List.cons_append, List.contains_cons, ih, Bool.or_assoc]
+
+private theorem filter_len_le {α : Type} (p q : α → Bool) (h : ∀ x, q x = true → p x = true) :
+    ∀ l : List α, (l.filter q).length ≤ (l.filter p).length
+  | [] => Nat.le_refl _
+  | a :: l => by
+    have ih := filter_len_le p q h l
+    simp only [List.filter_cons]
+    cases hq : q a with
+    | true => simp only [h a hq, if_true, List.length_cons]; omega
+    | false =>
+      cases hp : p a <;> simp only [if_true, Bool.false_eq_true, if_false, List.length_cons] <;> omega
+
+private theorem filter_len_lt {α : Type} (p q : α → Bool) (h : ∀ x, q x = true → p x = true) (k : α)
+    (hp : p k = true) (hq : q k = false) : ∀ l : List α, k ∈ l → (l.filter q).length < (l.filter p).length
+  | [], hk => by cases hk
+  | a :: l, hk => by
+    have ihle := filter_len_le p q h l
+    simp only [List.filter_cons]
+    rcases List.mem_cons.1 hk with rfl | hk'
+    · simp only [hp, hq, if_true, Bool.false_eq_true, if_false, List.length_cons]; omega
+    · have ih := filter_len_lt p q h k hp hq l hk'
+      cases hqa : q a with
+      | true => simp only [h a hqa, if_true, List.length_cons]; omega
+      | false =>
+        cases hpa : p a <;> simp only [if_true, Bool.false_eq_true, if_false, List.length_cons] <;> omega
+
+private theorem pendingNames_snoc (seen : List String) (k : String) (names : List String) :
+    pendingNames names (seen ++ [k]) ≤ pendingNames names seen ∧
+      (k ∈ names → seen.contains k = false → pendingNames names (seen ++ [k]) < pendingNames names seen) := by
+  have h : ∀ x, (!(seen ++ [k]).contains x) = true → (!seen.contains x) = true := by
+    intro x hx
+    rw [contains_snoc] at hx
+    cases hc : seen.contains x
+    · rfl
+    · rw [hc] at hx; simp at hx
+  unfold pendingNames
+  refine ⟨filter_len_le _ _ h names, fun hk hs => ?_⟩
+  apply filter_len_lt _ _ h k _ _ names hk
+  · simp only [hs, Bool.not_false]
+  · simp only [contains_snoc, beq_self_eq_true, Bool.or_true, Bool.not_true]
+
+private theorem returns_always_core (env : Env) (names : List String) (hfin : ∀ n, n ∉ names → env n = []) :
+    ∀ (B : Nat) (n : Nat) (seen : List String) (t : Tk), pendingNames names seen ≤ B → sizeOf t ≤ n →
+      Returns env seen t := by
   intro B
   induction B using Nat.strongRecOn with
   | _ B ihB =>
     intro n
     induction n with
     | zero =>
-      intro t ht
+      intro seen t _ ht
       cases t <;> simp at ht
     | succ n ihn =>
-      intro t ht hrefs
+      intro seen t hB ht
       cases hc : checkVar t with
-      | false =>
-        refine ⟨1, fun f hf => ⟨none, ?_⟩⟩
-        obtain ⟨g, rfl⟩ : ∃ g, f = g + 1 := ⟨f - 1, by omega⟩
-        simp [resolveVar, hc]; rfl
+      | false => exact returns_no_var env seen t hc
+      | true =>
+        cases t with
+        | fn name lname args =>
+          have hsz : ∀ a ∈ args, sizeOf a ≤ n := by
+            intro a ha
+            have := List.sizeOf_lt_of_mem ha
+            simp only [Tk.fn.sizeOf_spec] at ht
+            omega
+          by_cases hl : (lname != "var") = true
+          · exact returns_fn env seen name lname args hc hl (fun a ha => ihn seen a hB (hsz a ha))
+          · have hl' : (lname != "var") = false := by simpa using hl
+            obtain ⟨v, dflt, hp⟩ := checkVar_var_args name lname args hl' hc
+            have hdflt : ∀ x ∈ dflt, Returns env (seen ++ [dashToUnderscore v]) x := by
+              intro x hx
+              have hxa : x ∈ args := parseArgs_mem args false _ hp x (by simp [hx])
+              exact ihn _ x (Nat.le_trans (pendingNames_snoc seen _ names).1 hB) (hsz x hxa)
+            apply returns_var env seen name lname args dflt v hc hl' hp
+            intro x hx
+            unfold varValues at hx
+            by_cases hs : seen.contains (dashToUnderscore v) = true
+            · rw [if_pos hs] at hx
+              exact hdflt x hx
+            · rw [if_neg hs] at hx
+              by_cases he : (env (dashToUnderscore v)).isEmpty = true
+              · rw [if_pos he] at hx
+                exact hdflt x hx
+              · rw [if_neg he] at hx
+                -- a non-empty custom property met for the first time: one name less is pending
+                have hmem : dashToUnderscore v ∈ names := by
+                  apply Classical.byContradiction
+                  intro hnot
+                  rw [hfin _ hnot] at he
+                  simp at he
+                have hs' : seen.contains (dashToUnderscore v) = false := by simpa using hs
+                have hlt := (pendingNames_snoc seen (dashToUnderscore v) names).2 hmem hs'
+                exact ihB (pendingNames names (seen ++ [dashToUnderscore v])) (by omega) (sizeOf x) _ x
+                  (Nat.le_refl _) (Nat.le_refl _)
+        | _ => simp [checkVar] at hc
+
+/-- **`resolve_var` always terminates** (full strength since `fix:` 2bffab3; before it the statement needed acyclic
+custom properties — `--a: var(--a)` recursed until `RecursionError`): whatever the custom properties of an element
+(finitely many are set: `names` lists them), cyclic or not, whatever the token, the tuple `seen` and the nesting of
+functions, fallbacks and references, there is a depth from which `resolve_var` returns. -/
+theorem resolve_var_terminates (env : Env) (names : List String) (hfin : ∀ n, n ∉ names → env n = [])
+    (seen : List String) (t : Tk) :
+    ∃ f0, ∀ f, f0 ≤ f → ∃ r, resolveVar env seen f t = .ok r :=
+  returns_always_core env names hfin (pendingNames names seen) (sizeOf t) seen t (Nat.le_refl _) (Nat.le_refl _)
+
+/-- **A custom property met again during its own substitution yields its fallback**: under `seen ∋ --v`,
+`var(--v, fb…)` resolves to the resolution of `fb…` alone, whatever the value of `--v`. -/
+theorem var_cycle_uses_fallback (env : Env) (seen : List String) (fuel : Nat) (name lname : String)
+    (args dflt : List Tk) (v : String) (hc : checkVar (.fn name lname args) = true)
+    (hl : (lname != "var") = false) (hp : parseArgs args false = some (.ident v :: dflt))
+    (hseen : dashToUnderscore v ∈ seen) :
+    resolveVar env seen (fuel + 1) (.fn name lname args) =
+      (dflt.mapM (valueStep (resolveVar env (seen ++ [dashToUnderscore v]) fuel))).map
+        (fun parts => some parts.flatten) := by
+  have hcont : seen.contains (dashToUnderscore v) = true := by simpa using hseen
+  simp only [resolveVar, hc, Bool.not_true, Bool.false_eq_true, if_false, hl, hp, varValues, hcont, if_true,
+    bind, Except.bind]
+  cases dflt.mapM (valueStep (resolveVar env (seen ++ [dashToUnderscore v]) fuel)) <;> rfl
+
+/-- Regression (`p { --a: var(--a); width: var(--a) }`, repaired by 2bffab3): the self-reference is met with `--a`
+in `seen` and yields its (empty) fallback — for every depth ≥ 2, no `RecursionError`; `--a: var(--a) 1px` gives
+`1px`, and a two-property cycle `--a: var(--b)`, `--b: var(--a, 2px)` gives the inner fallback. -/
+example :
+    let selfEnv : Env := fun n => if n = "__a" then [.fn "var" "var" [.ident "--a"]] else []
+    let selfEnv2 : Env := fun n => if n = "__a" then [.fn "var" "var" [.ident "--a"], .ws, .leaf "1px"] else []
+    let twoEnv : Env := fun n =>
+      if n = "__a" then [.fn "var" "var" [.ident "--b"]]
+      else if n = "__b" then [.fn "var" "var" [.ident "--a", .comma, .ws, .leaf "2px"]] else []
+    let tok : Tk := .fn "var" "var" [.ident "--a"]
+    (match resolveVar selfEnv [] 2 tok with | .ok (some []) => true | _ => false) = true ∧
+    (match resolveVar selfEnv [] 50 tok with | .ok (some []) => true | _ => false) = true ∧
+    (match resolveVar selfEnv2 [] 3 tok with | .ok (some [.ws, .leaf "1px"]) => true | _ => false) = true ∧
+    (match resolveVar twoEnv [] 4 tok with | .ok (some [.leaf "2px"]) => true | _ => false) = true := by
+  decide
+
+/-! ### On acyclic custom properties (no finiteness needed) -/
+
+private theorem returns_core (env : Env) (rk : String → Nat) (hacy : Acyclic env rk) :
+    ∀ (B : Nat) (n : Nat) (seen : List String) (t : Tk), sizeOf t ≤ n → (∀ m ∈ refs t, rk m < B) →
+      Returns env seen t := by
+  intro B
+  induction B using Nat.strongRecOn with
+  | _ B ihB =>
+    intro n
+    induction n with
+    | zero =>
+      intro seen t ht
+      cases t <;> simp at ht
+    | succ n ihn =>
+      intro seen t ht hrefs
+      cases hc : checkVar t with
+      | false => exact returns_no_var env seen t hc
       | true =>
         cases t with
         | fn name lname args =>
@@ -200,33 +281,7 @@ private theorem returns_core (env : Env) (rk : String → Nat) (hacy : Acyclic e
             simp only [refs, List.mem_append]
             exact Or.inr (refsList_mem args a ha m hm)
           by_cases hl : (lname != "var") = true
-          · -- another function: every argument returns, the rebuilt function has no var() left
-            obtain ⟨f1, h1⟩ := fuel_for_list (fun f a => ∃ r, resolveVar env f a = .ok r) args
-              (fun a ha => ihn a (hsz a ha) (hrl a ha))
-            refine ⟨max f1 1 + 1, fun f hf => ?_⟩
-            obtain ⟨g, rfl⟩ : ∃ g, f = g + 1 := ⟨f - 1, by omega⟩
-            have hg1 : f1 ≤ g := by have := Nat.le_max_left f1 1; omega
-            have hg2 : 1 ≤ g := by have := Nat.le_max_right f1 1; omega
-            obtain ⟨parts, hm⟩ := mapM_all_ok (argStep (resolveVar env g)) args
-              (fun a ha => argStep_of_ok _ a (h1 g hg1 a ha))
-            have hparts : ∀ x ∈ parts.flatten, checkVar x = false := by
-              intro x hx
-              simp only [List.mem_flatten] at hx
-              obtain ⟨p, hp, hxp⟩ := hx
-              obtain ⟨a, _, hfa⟩ := mapM_ok_mem _ args parts hm p hp
-              rcases argStep_ok _ a p hfa with hra | ⟨hra, rfl⟩ | ⟨hleaf, rfl⟩
-              · exact resolveVar_no_var env g _ p hra x hxp
-              · simp only [List.mem_singleton] at hxp
-                subst hxp
-                exact resolveVar_none env g x hra
-              · simp only [List.mem_singleton] at hxp
-                subst hxp
-                exact checkVar_leaf x hleaf
-            have hc' := checkVar_fn_false name lname parts.flatten hl hparts
-            obtain ⟨g', rfl⟩ : ∃ g', g = g' + 1 := ⟨g - 1, by omega⟩
-            have h2 : resolveVar env (g' + 1) (Tk.fn name lname parts.flatten) = .ok none := by
-              simp [resolveVar, hc']; rfl
-            exact ⟨some [Tk.fn name lname parts.flatten], resolveVar_fn_eq env _ name lname args parts hc hl hm h2⟩
+          · exact returns_fn env seen name lname args hc hl (fun a ha => ihn seen a (hsz a ha) (hrl a ha))
           · -- var(--v, default): the value of --v has a smaller rank, the default is made of arguments
             have hl' : (lname != "var") = false := by simpa using hl
             have hlv : (lname == "var") = true := by simpa [bne] using hl'
@@ -236,28 +291,26 @@ private theorem returns_core (env : Env) (rk : String → Nat) (hacy : Acyclic e
               apply hrefs
               simp only [refs, hlv, if_true, List.mem_append]
               exact Or.inl (identNames_mem args v hvmem)
-            have hvals : ∀ x ∈ (if (env (dashToUnderscore v)).isEmpty then dflt else env (dashToUnderscore v)),
-                Returns env x := by
+            have hdflt : ∀ x ∈ dflt, Returns env (seen ++ [dashToUnderscore v]) x := by
               intro x hx
-              split at hx
-              · have hxa : x ∈ args := parseArgs_mem args false _ hp x (by simp [hx])
-                exact ihn x (hsz x hxa) (hrl x hxa)
-              · exact ihB (rk (dashToUnderscore v)) hrkv (sizeOf x) x (Nat.le_refl _)
+              have hxa : x ∈ args := parseArgs_mem args false _ hp x (by simp [hx])
+              exact ihn _ x (hsz x hxa) (hrl x hxa)
+            apply returns_var env seen name lname args dflt v hc hl' hp
+            intro x hx
+            unfold varValues at hx
+            split at hx
+            · exact hdflt x hx
+            · split at hx
+              · exact hdflt x hx
+              · exact ihB (rk (dashToUnderscore v)) hrkv (sizeOf x) _ x (Nat.le_refl _)
                   (fun m hm => hacy (dashToUnderscore v) m (refsList_mem _ x hx m hm))
-            obtain ⟨f1, h1⟩ := fuel_for_list (fun f a => ∃ r, resolveVar env f a = .ok r) _ hvals
-            refine ⟨f1 + 1, fun f hf => ?_⟩
-            obtain ⟨g, rfl⟩ : ∃ g, f = g + 1 := ⟨f - 1, by omega⟩
-            obtain ⟨parts, hm⟩ := mapM_all_ok (valueStep (resolveVar env g)) _
-              (fun a ha => valueStep_of_ok _ a (h1 g (by omega) a ha))
-            exact ⟨some parts.flatten, resolveVar_var_eq env g name lname args dflt v parts hc hl' hp hm⟩
         | _ => simp [checkVar] at hc
 
-/-- **`resolve_var` terminates on acyclic environments**: if the references between custom properties admit a
-rank (no `--a: var(--a)`, no longer cycle), then for every token there is a depth from which `resolve_var`
-returns — no `RecursionError`, whatever the nesting of functions, fallbacks and chains of custom properties.
-(The hypothesis is necessary: `Witness.C07.var_self_cycle`.) -/
-theorem resolve_var_terminates (env : Env) (rk : String → Nat) (hacy : Acyclic env rk) (t : Tk) :
-    ∃ f0, ∀ f, f0 ≤ f → ∃ r, resolveVar env f t = .ok r := by
+/-- `resolve_var` terminates on acyclic environments, finitely many custom properties or not: if the references
+between custom properties admit a rank, then for every token there is a depth from which `resolve_var` returns. -/
+theorem resolve_var_terminates_acyclic (env : Env) (rk : String → Nat) (hacy : Acyclic env rk)
+    (seen : List String) (t : Tk) :
+    ∃ f0, ∀ f, f0 ≤ f → ∃ r, resolveVar env seen f t = .ok r := by
   have hB : ∃ B, ∀ m ∈ refs t, rk m < B := by
     generalize refs t = l
     induction l with
@@ -270,17 +323,17 @@ theorem resolve_var_terminates (env : Env) (rk : String → Nat) (hacy : Acyclic
       · have := Nat.le_max_right B (rk m + 1); omega
       · have := hB m hm; have := Nat.le_max_left B (rk x + 1); omega
   obtain ⟨B, hB⟩ := hB
-  exact returns_core env rk hacy B (sizeOf t) t (Nat.le_refl _) hB
+  exact returns_core env rk hacy B (sizeOf t) seen t (Nat.le_refl _) hB
 
 /-- **`var()` ≡ textual substitution, totally**: acyclic custom properties, well-formed `var()` with comma-free
 fallbacks ⇒ from some depth on `resolve_var` returns, and what it returns is the textual substitution. -/
 theorem var_subst_total (env : Env) (rk : String → Nat) (hacy : Acyclic env rk)
     (henv : ∀ n, wfToks (env n) = true) (t : Tk) (ht : wfTok t = true) :
-    ∃ f0, ∀ f, f0 ≤ f → ∃ r, resolveVar env f t = .ok r ∧ subst env f t = some (r.getD [t]) := by
-  obtain ⟨f0, h⟩ := resolve_var_terminates env rk hacy t
+    ∃ f0, ∀ f, f0 ≤ f → ∃ r, resolveVar env [] f t = .ok r ∧ subst env f t = some (r.getD [t]) := by
+  obtain ⟨f0, h⟩ := resolve_var_terminates_acyclic env rk hacy [] t
   refine ⟨f0, fun f hf => ?_⟩
   obtain ⟨r, hr⟩ := h f hf
-  exact ⟨r, hr, var_subst env henv f t r ht hr⟩
+  exact ⟨r, hr, var_subst env rk hacy henv f t r ht hr⟩
 
 /-- Non-vacuity: `--a: var(--b) 1px`, `--b: red` is acyclic with rank a ↦ 1, b ↦ 0. -/
 example : Acyclic
